@@ -586,6 +586,13 @@ def groupCheck (st : St) (impl : String) (topicParts : Option Nat := none) : Lis
         let existing := all.all (fun p => 1 ≤ p && p ≤ n)
         let lens := shares.map List.length
         let balanced := lens.all (fun a => lens.all (fun b => a ≤ b + 1))
+        -- every member is a client that is connected now (a member whose connection is gone would keep
+        -- partitions nobody reads); client ids are known from the `me` answers
+        (let ids := ((rest.headD "").splitOn ",").filterMap (fun e => ((e.splitOn "=").headD "").toNat?)
+         let live := st.sys.clients.map (·.2)
+         let zombies := ids.filter (fun i => !live.contains i)
+         if m = 0 || zombies.isEmpty then [] else
+           [s!"SPEC-VIOL {st.line} class=group-zombie-member members {zombies} are not connected clients, impl={impl}"]) ++
         (if shares.length != m then [s!"SPEC-VIOL {st.line} class=group-members impl={impl}"] else []) ++
         (if !cover || !existing then [s!"SPEC-VIOL {st.line} class=group-cover every partition must be in exactly one share, impl={impl}"] else []) ++
         (if !balanced then [s!"SPEC-VIOL {st.line} class=group-balance shares differ by more than one, impl={impl}"] else [])
@@ -627,6 +634,26 @@ def authzCheck (st : St) (aop : AOp) (opS impl : String) : List String :=
   let performed := impl.startsWith "ok" && impl != "ok none"
   if !performed then [] else
   let a := st.asys
+  -- C10: a login that succeeded was made with valid, current credentials of an active user
+  let cred : List String := match aop with
+    | .login _ name pw =>
+      (match a.findUser (.name name) with
+        | none => [s!"SPEC-VIOL {st.line} class=credential-invalid-accepted op={opS} no such user, impl={impl}"]
+        | some u =>
+          if u.pw ≠ pw then [s!"SPEC-VIOL {st.line} class=credential-invalid-accepted op={opS} wrong password, impl={impl}"]
+          else if !u.active then [s!"SPEC-VIOL {st.line} class=credential-inactive-accepted op={opS} impl={impl}"] else [])
+    | .loginPat _ k =>
+      (match a.users.find? (fun e => e.2.tokens.any (fun tk => tk.idx = k)) with
+        | none => [s!"SPEC-VIOL {st.line} class=credential-invalid-accepted op={opS} this token is not (or no longer) any user's token, impl={impl}"]
+        | some e =>
+          (match e.2.tokens.find? (fun tk => tk.idx = k) with
+            | some tk =>
+              if (match tk.expiry with | some x => decide (x ≤ a.sys.now) | none => false) then
+                [s!"SPEC-VIOL {st.line} class=credential-expired-accepted op={opS} token {tk.name} expired at {tk.expiry.getD 0}, now {a.sys.now}, impl={impl}"]
+              else if !e.2.active then [s!"SPEC-VIOL {st.line} class=credential-inactive-accepted op={opS} impl={impl}"] else []
+            | none => []))
+    | _ => []
+  if !cred.isEmpty then cred else
   let conn : Option Nat := match aop with
     | .ping _ | .login .. | .loginPat .. | .cleanPats => none
     | .logout c | .createUser c .. | .deleteUser c _ | .updateUser c .. | .updatePerms c .. | .changePw c ..
